@@ -411,6 +411,10 @@ func fnSetBit(ctx *cmdContext, args map[string]any) (output respValue, err error
 	}
 
 	result := ctx.dsc.bitfieldWrite(keyName, []*bitfieldOp{op})
+	if result.isErrorType() {
+		output = result
+		return
+	}
 
 	// result is an array of 1; convert it to a single output value
 	ra := result.toNative().([]any)
